@@ -17,7 +17,7 @@ def one(src):
             return src, {'error': 'patch does not apply: ' + p.stdout[-200:]}
         env = dict(os.environ, QSVERIF_EVIDENCE_DIR=os.path.join(d, '.ev'))
         p = subprocess.run([os.path.join(VERIF, 'check'), '--all', '--root', d], cwd=VERIF, env=env, stdout=subprocess.PIPE, stderr=subprocess.STDOUT, text=True)
-        for m in re.finditer(r'^(C\d\d) (HOLDS|VIOLATION|ANALYSIS-ERROR) tier', p.stdout, re.M):
+        for m in re.finditer(r'^(C\d\d) (HOLDS-ON-DECIDED-CLAUSES|HOLDS|VIOLATION|ANALYSIS-ERROR) tier', p.stdout, re.M):
             out[m.group(1)] = m.group(2)
         rules = {}
         for m in re.finditer(r'^VIOLATION property=(C\d\d) replay=\S+\n  rule=(\S+)', p.stdout, re.M):
